@@ -19,7 +19,8 @@
 (* Isolation HitId, C19 RestartTransparent; truncated loads add a subset  *)
 (* of the dump by construction of LoadCut and are judged in the trace     *)
 (* spec).  Deviation                                                     *)
-(* switches (KeyFields, TTLMode, Dedup, Alias, DumpFields, Admit) make     *)
+(* switches (KeyFields, TTLMode, Dedup, RefreshOwner, Alias, DumpFields,   *)
+(* Admit) make                                                             *)
 (* every invariant falsifiable (non-vacuity configs *_nv_*.cfg).           *)
 (* The numbers 30 / 5 / 300 / 5 / 1 of the property are constants of the   *)
 (* cfg, not of the module.                                                 *)
@@ -37,6 +38,8 @@ CONSTANTS
     TTLMode,        \* "stored" (property) | "expiry" | "noclamp" | "staleaged"  (deviations)
     Admit,          \* "rule" (property) | "tc" | "rcode" | "zero" | "optttl" | "nxlong"  (deviations)
     Dedup,          \* TRUE (property): one refresh per key in flight
+    RefreshOwner,   \* "asked" (property): a background refresh fetches the question the cache was asked (the key it
+                    \* was looked up under) | "other": it may fetch another question and store it under that key
     Alias,          \* "none" (property) | "store" | "hit" (shared message) | "id" (ID not rewritten)
     DumpFields,     \* subset of {"stored","msgexp","cacheexp"} written by Dump; property = all
     Insts,          \* plugin instances
@@ -178,10 +181,11 @@ Exec(i, q, r) ==
     /\ UNCHANGED <<lazy, now, dump, dumpOf>>
 
 \* the background refresh of doLazyUpdate returns with answer r
-RefreshEnd(f, r) ==
+RefreshEnd(f, r, oq) ==
     /\ "refresh" \in OpKinds /\ f \in inflight
+    /\ (RefreshOwner = "asked") => oq = f.q
     /\ inflight' = inflight \ {f}
-    /\ cache' = Store(f.i, f.key, f.q, r, f.rid)
+    /\ cache' = Store(f.i, f.key, oq, r, f.rid)
     /\ mirror' = IF cache' # cache /\ f.i \in {mirror[x] : x \in DOMAIN mirror} THEN <<>> ELSE mirror
     /\ obs' = Ack("refreshed")
     /\ H([a |-> "RefreshEnd", i |-> f.i, q |-> f.q, r |-> r, now |-> now])
@@ -262,7 +266,7 @@ Init ==
 
 Next ==
     \/ \E i \in Insts, q \in Queries, r \in Resps : Exec(i, q, r)
-    \/ \E f \in inflight, r \in Resps : RefreshEnd(f, r)
+    \/ \E f \in inflight, r \in Resps, oq \in Queries : RefreshEnd(f, r, oq)
     \/ \E d \in Ticks : Tick(d)
     \/ \E i \in Insts : Dump(i) \/ Load(i)
     \/ \E j \in Insts : \E S \in SUBSET LiveOf(dump) : LoadCut(j, S)
